@@ -10,3 +10,12 @@ From LP Require Export MinterVending.
 
 Definition create_price_ok (fp : fparams) (price : N) (d : denom) : bool :=
   (fp_min_denom fp =? d) && negb (price <? fp_min_price fp).
+
+(* open-edition-factory::execute_create_minter, price clause:
+     ensure!(params.min_mint_price.denom == msg.init_msg.mint_price.denom, InvalidDenom);
+     ensure!(params.min_mint_price.amount <= msg.init_msg.mint_price.amount, InsufficientMintPrice);
+     if num_tokens.is_none() { ensure!(!mint_price.amount.is_zero(), NoTokenLimitWithZeroMintPrice) }
+   (the full creation is Factory.factory_create FOpen; this clause is what the C07 probes
+   vary, everything else in the probe messages is valid) *)
+Definition oe_create_price_ok (min : N) (min_denom : denom) (price : N) (d : denom) (capped : bool) : bool :=
+  (min_denom =? d) && negb (price <? min) && (capped || negb (price =? 0)).
